@@ -262,11 +262,15 @@ partial def handle : List String → String
     | some cap => (sigCacheRun (cap - cap + 1000000) ops).getD "bad-op"
     | none => "bad-op"
   | ["sign", form, _mode, _cache, ht, idx, otx, osp, mtx, msp] =>
-    match Expect.Form.parse? form, u32? ht, idx.toNat?, tx? otx, spent? osp, tx? mtx, spent? msp with
-    | some form, some ht, some idx, some otx, some osp, some mtx, some msp =>
+    -- `ht` may be a `+`-separated list: one hash type per signature the input carries (co-signers of a
+    -- multisig may each choose their own); every one of them must still verify
+    match Expect.Form.parse? form, (ht.splitOn "+").mapM u32?, idx.toNat?, tx? otx, spent? osp, tx? mtx, spent? msp with
+    | some form, some hts, some idx, some otx, some osp, some mtx, some msp =>
       if idx ≥ mtx.ins.length ∨ idx ≥ msp.length then "bad-op" else
-      if Expect.stillVerifies form ht idx ⟨otx, osp⟩ ⟨mtx, msp⟩ then "verified" else "failed"
+      if hts.all (fun ht => Expect.stillVerifies form ht idx ⟨otx, osp⟩ ⟨mtx, msp⟩) then "verified" else "failed"
     | _, _, _, _, _, _, _ => "bad-op"
+  -- SignTxOutput on a pkScript class it cannot sign must return an error (never a script)
+  | ["signclass", _class, _obs] => "err"
   | ["helper", form, ht, idx, _nIns, nOuts, _obs] =>
     match Expect.Form.parse? form, u32? ht, idx.toNat?, nOuts.toNat? with
     | some form, some ht, some idx, some nOuts =>
